@@ -918,12 +918,80 @@ def r8(ctx, rep):
                   file=where[0][0], line=where[0][1], fn=where[0][2])
 
 
+# helpers that flatten the template of exactly one std function (the name test is in the dispatcher of translate_expr)
+R9_ATOMS = {"process_date_to_text": "date.to_text"}
+
+
+def _value_leaves(body):
+    """the expressions a function body can evaluate to: tails of blocks, branches of if / match, the payload of Ok(..) / Some(..), `return e`"""
+    out = []
+
+    def leaf(e):
+        if e is None:
+            return
+        k = e.get("k")
+        if k == "block":
+            leaf(tail_expr(e))
+        elif k == "if":
+            leaf(e.get("t"))
+            leaf(e.get("e"))
+        elif k == "match":
+            for a in e["arms"]:
+                leaf(a["body"])
+        elif k in ("paren", "try"):
+            leaf(e["e"])
+        elif k == "call" and show(e["f"]) in ("Ok", "Some") and len(e["a"]) == 1:
+            leaf(e["a"][0])
+        elif k == "return":
+            leaf(e.get("e"))
+        else:
+            out.append(e)
+    leaf(body)
+    for n in walk(body):
+        if n.get("k") == "return":
+            leaf(n.get("e"))
+    return out
+
+
 def r9(ctx, rep):
     rep.rule("C02.R9", "declared strength is not erased: no ExprOrSource is flattened with into_ast() and re-wrapped as an operand", floor=20)
     syn = ctx.syn
+    # functions of the SQL backend that hand out a flattened expression: they return a bare sqlparser expression and call `into_ast()` on the way
+    flat_fns = {}
     for f in syn.fns:
         if f["crate"] != "prqlc" or "/sql/" not in f["file"] or "body" not in f:
             continue
+        ret = f.get("ret", "") or ""
+        if "ExprOrSource" not in ret and re.search(r"\bExpr\b", ret) and any(x.get("k") == "mcall" and x["m"] == "into_ast" for x in _value_leaves(f["body"])):
+            flat_fns[f["name"]] = f
+    for f in syn.fns:
+        if f["crate"] != "prqlc" or "/sql/" not in f["file"] or "body" not in f:
+            continue
+        if "ExprOrSource" in (f.get("ret", "") or ""):
+            # a flattened expression that comes back from another function and is re-wrapped here (two cooperating sites)
+            for n in walk(f["body"]):
+                if n.get("k") == "mcall" and n["m"] == "into" and not n["a"]:
+                    r = n["r"]
+                    while r.get("k") in ("try", "paren"):
+                        r = r["e"]
+                    if r.get("k") == "call" and last_seg(show(r["f"])) in flat_fns:
+                        g = flat_fns[last_seg(show(r["f"]))]
+                        if g["name"] in R9_ATOMS:
+                            # reviewed: what this helper flattens is one std function's template; precondition checked on std.sql.prql:
+                            # no implementation of it has an operator outside parentheses, so its strength is that of an atom anyway
+                            import sqltmpl
+                            impls = sql_impls(ctx, R9_ATOMS[g["name"]])
+                            open_ops = [(d_, [t_["v"] for t_ in sqltmpl.analyse(fd_["body"]["items"])["top_ops"]]) for d_, fd_ in impls
+                                        if isinstance(fd_.get("body"), dict) and "items" in fd_["body"]]
+                            open_ops = [x for x in open_ops if x[1]]
+                            rep.check(bool(impls) and not open_ops, f"rewrap:{f['path']}:{g['name']}():atoms-only",
+                                      f"`{g['name']}` flattens the template of std.{R9_ATOMS[g['name']]} and `{f['name']}` re-wraps it as an atom; that is harmless only while every implementation "
+                                      f"is a plain function call, but {open_ops} have an operator outside parentheses", file=f["file"], line=n["l"], fn=f["path"])
+                            continue
+                        rep.bad(f"rewrap:{f['path']}:{last_seg(show(r['f']))}()",
+                                f"`{show(n, maxdepth=6)}` wraps what `{g['name']}` returns as an operand, and `{g['name']}` flattens an ExprOrSource with `into_ast()` (the s-string hack: an identifier): "
+                                "a template's declared binding strength is replaced by the atom strength, so a parent operator never parenthesises an inlined column (`z % a` with `a = x % y` -> `z % x % y`)",
+                                file=f["file"], line=n["l"], fn=f["path"])
         # locals bound to `<x>.into_ast()`
         flat = {}
         for n in walk(f["body"]):
